@@ -20,6 +20,7 @@ import Adsg.Model.Fast
 import Adsg.Model.Proc
 import Adsg.Model.Design
 import Adsg.Model.Decode
+import Adsg.Model.Heap
 open Lean Adsg
 
 namespace Drv
@@ -497,6 +498,39 @@ def opDecodeFull (j : Json) : R Json := do
   return Json.mkObj [("wf", Json.bool P.g.WF), ("dv_wf", Json.bool (P.dvs.all (·.dom.WF))),
     ("results", Json.arr qs.toArray)]
 
+/-! ### heap model (C08) -/
+
+def heapOwn (j : Json) : R Heap.Own := do
+  return { groups := ← listOf (pairOf nat (listOf deg)) (← field j "groups"),
+           conns := ← listOf (pairOf nat nat) (← field j "conns"),
+           rest := ← fieldD j "rest" nat 0 }
+
+def heapAct (j : Json) : R Heap.Act := do
+  match j.getObjVal? "look" with
+  | .ok i => return .look (← nat i)
+  | .error _ => return .derive (← nat (← field j "src")) (← heapOwn (← field j "own"))
+
+def jDeg : Deg → Json
+  | .list ds => Json.mkObj [("list", jList jNat ds)]
+  | .atLeast m => Json.mkObj [("min", jNat m)]
+
+/-- Runs a history of derive / look acts; per act: the look's report (or null), whether every object is
+    well formed, and the shared cells after the act. -/
+def opHeapRun (j : Json) : R Json := do
+  let first ← heapOwn (← field j "first")
+  let acts ← listOf heapAct (← field j "acts")
+  let w0 : Heap.World := { objs := [first], cells := Heap.sync first [] }
+  let rec go (w : Heap.World) (ws : Heap.World) : List Heap.Act → List Json
+    | [] => []
+    | a :: as =>
+      let (w', o) := Heap.step w a
+      let (ws', os) := Heap.stepStale ws a
+      Json.mkObj [("obs", jOpt (fun (p : Nat × Bool) => Json.arr #[jNat p.1, Json.bool p.2]) o),
+        ("obs_stale", jOpt (fun (p : Nat × Bool) => Json.arr #[jNat p.1, Json.bool p.2]) os),
+        ("cells", jList (fun (p : Nat × Deg) => Json.arr #[jNat p.1, jDeg p.2]) w'.cells)] :: go w' ws' as
+  return Json.mkObj [("wf", Json.bool (first.WF && acts.all (fun a => match a with | .derive _ o => o.WF | .look _ => true))),
+    ("steps", Json.arr (go w0 w0 acts).toArray)]
+
 def dispatch (op : String) (j : Json) : R Json :=
   match op with
   | "ping" => return Json.str "pong"
@@ -517,6 +551,7 @@ def dispatch (op : String) (j : Json) : R Json :=
   | "neighborhood" => opNeighborhood j
   | "restrict" => opRestrict j
   | "design_space" => opDesignSpace j
+  | "heap_run" => opHeapRun j
   | "decode_full" => opDecodeFull j
   | "get_best" => opGetBest j
   | "correct_value" => opCorrect j
